@@ -1,10 +1,10 @@
 //@ unit C03_cache
-//@ props C03
+//@ props C03 C05 C02
 //@ module src/font.rs
 //@ strength complete for LazyLoad::get_or_load (loop-free state machine, symbolic loader outcome); bounded for the glyph memo (one earlier call with any arguments on a Font built from a 32-byte cmap)
 //@ unverified lookup-list cache (get_lookups_cache_index: HashMap/BTreeMap, out of reach - key omits the feature-variation substitution, known from reading), ReadCache keyed by scope base, LayoutCacheData caches; byte-identical determinism of whole outputs (no contract shape)
 
-//@ harness lazy_load kind=complete fns=LazyLoad::get_or_load
+//@ harness lazy_load kind=complete fns=LazyLoad::get_or_load props=C03
 #[kani::proof]
 fn lazy_load() {
     let outcome: Result<Option<u16>, ParseError> = if kani::any() { Ok(if kani::any() { Some(kani::any()) } else { None }) } else { Err(ParseError::BadValue) };
@@ -27,14 +27,14 @@ fn lazy_load() {
     }
 }
 
-struct NoTables;
+pub(crate) struct NoTables;
 impl FontTableProvider for NoTables {
     fn table_data(&self, _tag: u32) -> Result<Option<Cow<'_, [u8]>>, ParseError> { Ok(None) }
     fn has_table(&self, _tag: u32) -> bool { false }
     fn table_tags(&self) -> Option<Vec<u32>> { None }
 }
 
-fn test_font() -> Font<NoTables> {
+pub(crate) fn test_font() -> Font<NoTables> {
     // cmap format 4 sub-table mapping U+25CC -> glyph 5 and the mandatory 0xFFFF segment
     let cmap: [u8; 32] = [0, 4, 0, 32, 0, 0, 0, 4, 0, 4, 0, 1, 0, 0, 0x25, 0xCC, 0xFF, 0xFF, 0, 0, 0x25, 0xCC, 0xFF, 0xFF, 0xDA, 0x39, 0, 1, 0, 0, 0, 0];
     Font {
@@ -67,7 +67,7 @@ fn any_vs() -> Option<VariationSelector> {
 }
 fn any_mp() -> MatchingPresentation { if kani::any() { MatchingPresentation::Required } else { MatchingPresentation::NotRequired } }
 
-//@ harness glyph_memo kind=bounded:1earlier_call fns=Font::lookup_glyph_index,GlyphCache::get,GlyphCache::put,Font::map_unicode_to_glyph,Font::lookup_glyph_index_with_variation,Font::resolve_default_presentation,Font::map_glyph timeout=1500 tier=thorough
+//@ harness glyph_memo kind=bounded:1earlier_call fns=Font::lookup_glyph_index,GlyphCache::get,GlyphCache::put,Font::map_unicode_to_glyph,Font::lookup_glyph_index_with_variation,Font::resolve_default_presentation,Font::map_glyph props=C03 timeout=1500 tier=thorough
 #[kani::proof]
 #[kani::unwind(6)]
 fn glyph_memo() {
@@ -83,7 +83,7 @@ fn glyph_memo() {
     assert!(want.0 == 5 || (mp2 == MatchingPresentation::Required && want.1 == VariationSelector::VS16 && want.0 == 0), "U+25CC maps to glyph 5 (or 0 when an emoji presentation is required and absent)");
 }
 
-//@ harness glyph_memo_selector kind=bounded:1earlier_call fns=Font::lookup_glyph_index,GlyphCache::get,GlyphCache::put,Font::map_unicode_to_glyph,Font::resolve_default_presentation timeout=900
+//@ harness glyph_memo_selector kind=bounded:1earlier_call fns=Font::lookup_glyph_index,GlyphCache::get,GlyphCache::put,Font::map_unicode_to_glyph,Font::resolve_default_presentation props=C03 timeout=900
 #[kani::proof]
 #[kani::unwind(6)]
 fn glyph_memo_selector() {
